@@ -121,6 +121,10 @@ type verifStateOpts struct {
 	DenyFPs          []string
 	PublicKeysFile   bool
 	DisableNormalize bool
+	VIP              bool   // symantec VIP enabled (pointed at a fake by InstallFakeVIP)
+	OktaDomain       string // okta password + 2FA backend (reached through verifNet)
+	Oauth2IdPHost    string // federated login through a fake IdP host (reached through verifNet)
+	NoHtpasswd       bool
 	ExtraBase        string // raw yaml lines (indented 4) appended under base:
 	ExtraTop         string // raw yaml appended at top level
 	KeepDBCopier     bool
@@ -248,7 +252,9 @@ func verifNewEnv(o verifStateOpts) (*verifEnv, error) {
 	if o.Ed25519 {
 		fmt.Fprintf(&y, "    ed25519_ca_keyfilename: %q\n", edFile)
 	}
-	fmt.Fprintf(&y, "    htpasswd_filename: %q\n", filepath.Join(dir, "htpasswd"))
+	if !o.NoHtpasswd && o.OktaDomain == "" {
+		fmt.Fprintf(&y, "    htpasswd_filename: %q\n", filepath.Join(dir, "htpasswd"))
+	}
 	fmt.Fprintf(&y, "    host_identity: %q\n", verifHostIdentity)
 	fmt.Fprintf(&y, "    data_directory: %q\n", filepath.Join(dir, "data"))
 	shared := os.Getenv("VERIF_SHARED_DATA")
@@ -296,6 +302,17 @@ func verifNewEnv(o verifStateOpts) (*verifEnv, error) {
 	y.WriteString(o.ExtraBase)
 	if len(o.DenyFPs) > 0 {
 		fmt.Fprintf(&y, "denytrustdata:\n    key_deny_list_ssh_sha256: %s\n", verifYAMLList(o.DenyFPs))
+	}
+	if o.VIP {
+		fmt.Fprintf(&y, "symantecvip:\n    enabled: true\n    cert_file: %q\n    key_file: %q\n",
+			filepath.Join(dir, "server.pem"), filepath.Join(dir, "server.key"))
+	}
+	if o.OktaDomain != "" {
+		fmt.Fprintf(&y, "okta:\n    domain: %q\n    enable_2fa: true\n", o.OktaDomain)
+	}
+	if o.Oauth2IdPHost != "" {
+		fmt.Fprintf(&y, "oauth2:\n    enabled: true\n    client_id: \"km-client\"\n    client_secret: \"km-secret\"\n    token_url: \"https://%s/token\"\n    auth_url: \"https://%s/authorize\"\n    userinfo_url: \"https://%s/userinfo\"\n    scopes: \"openid email\"\n",
+			o.Oauth2IdPHost, o.Oauth2IdPHost, o.Oauth2IdPHost)
 	}
 	y.WriteString(o.ExtraTop)
 	cfg := filepath.Join(dir, "config.yml")
@@ -351,6 +368,25 @@ func (e *verifEnv) SyncCache() error {
 func (e *verifEnv) CleanupExpired() {
 	cleanupDBData(e.State.db)
 	cleanupDBData(e.State.cacheDB)
+}
+
+// InstallFakeVIP points the VIP client (an external party) at the fake.
+func (e *verifEnv) InstallFakeVIP(f *verifFakeVIP) {
+	c := e.State.Config.SymantecVIP.Client
+	c.VipUserServicesURL = f.Server.URL + "/query"
+	c.VipUserServiceAuthenticationURL = f.Server.URL + "/auth"
+	c.RootCAs = f.CertPool()
+}
+
+// ProfileBlob returns the stored (opaque) profile bytes of a user from the
+// primary store, "" when absent.  SQL schema knowledge only.
+func verifProfileBlob(db *sql.DB, user string) string {
+	var b []byte
+	err := db.QueryRow("select profile_data from user_profile where username = ?", user).Scan(&b)
+	if err != nil {
+		return ""
+	}
+	return string(b)
 }
 
 // CA certificates exactly as main() adds them to the TLS client pool.
